@@ -181,3 +181,45 @@ def runOut (r : Run) : String :=
 def Run.span (r : Run) : Nat := r.calls * (1 + r.inner)
 
 end EinoV.C09.Flight
+
+/-
+  A run PARKED inside user code of its own (the state generator of `WithGenLocalState`, a state
+  pre/post handler, a node body, a callback handler) while the other runs of the same compiled
+  object start and must complete.  Every run passes one section of user code: pc 0 = before it,
+  1 = inside, 2 = returned.  `lock` = the section is entered under a lock that belongs to the
+  COMPILED OBJECT (a field of the runner / graph, a local of compile() captured by a closure stored
+  in the runner), as opposed to nothing or a per-run object.  The parked run leaves its section
+  only when every other run has returned (that is the harness's barrier).
+-/
+namespace EinoV.C09.Hold
+
+structure St where
+  owner : Option Nat
+  pc : Nat → Nat
+
+def St.init : St := ⟨none, fun _ => 0⟩
+
+def upd (f : Nat → Nat) (i v : Nat) : Nat → Nat := fun j => if j = i then v else f j
+
+def othersBack (n parked : Nat) (st : St) : Bool :=
+  (List.range n).all fun j => j == parked || 2 ≤ st.pc j
+
+def step (lock : Bool) (n parked : Nat) (st : St) (i : Nat) : St :=
+  if n ≤ i then st else
+  match st.pc i with
+  | 0 => if lock && st.owner.isSome then st
+         else ⟨if lock then some i else st.owner, upd st.pc i 1⟩
+  | 1 => if i == parked && !othersBack n parked st then st
+         else ⟨if lock then none else st.owner, upd st.pc i 2⟩
+  | _ => st
+
+def exec (lock : Bool) (n parked : Nat) : List Nat → St → St
+  | [], st => st
+  | i :: rest, st => exec lock n parked rest (step lock n parked st i)
+
+/-- the runs other than the parked one, each scheduled twice -/
+def othersTwice (n parked : Nat) : List Nat :=
+  let o := (List.range n).filter (· != parked)
+  o ++ o
+
+end EinoV.C09.Hold
